@@ -284,8 +284,9 @@ def check(ctx):
 
     # ---- C08.5 candidate order ------------------------------------------------------------------------------------
     o = Ob('C08.5', 'K6', 'downstream candidates are tried in ascending waiting-since order (None last), every hand-over loop iterates that order '
-                          'and stops at the first success')
+                          'and stops at the first success; a waiting-since of 0 is a time, not "not waiting"')
     obs.append(o)
+    o5 = o
     PFC = P.cls('PartFlowController')
     sorter = P.lookup(PFC, 'downstream_priority_sorter')
     o.count()
@@ -554,7 +555,104 @@ def check(ctx):
                        file=c.mod.path, line=c.node.lineno)
             else:
                 o.witness((c.name, 'base'))
+    # every device that takes parts, single-slot or not (PartBatcher, Buffer): a successful give_part never leaves the OLD waiting-since
+    # stamp in place -- it is cleared, or re-stamped with the current time if the device is able to take another part at once
+    for c in dv.device_classes(P, ['PartHandler', 'PartProcessor', 'Sink', 'PartBatcher', 'Buffer']):
+        N = Normalizer(P, c)
+
+        def stamp2(an, n, before, after, N=N):
+            a = n.ast
+            st = after
+            if n.kind == 'stmt' and isinstance(a, ast.Assign) and any(is_self_attr(t, '_waiting_for_part_since') for t in a.targets):
+                if isinstance(a.value, ast.Constant) and a.value.value is None:
+                    st = st.with_field('_waiting_for_part_since', 'N')
+                else:
+                    st = st.with_field('_waiting_for_part_since', 'S' if N.norm(a.value, FrameEnv(n.frame)).is_({'NOW': 1}) else 'other')
+            if n.kind == 'call_enter' and n.frame.func.name == '_accept_part':
+                st = st.with_flag('accepted')
+            return st
+        dom = dv.base_domain(P, c)
+        dom['_waiting_for_part_since'] = ['old']
+        dom['_env'] = ['S']
+        n_acc = 0
+        for e, kind, g, s0, res in dv.explore_all(ctx, c, tracked, dom, None, node_hooks=[stamp2], call_models={'reserve_resources': TOP, 'generate_part': 'S', '_get_part_count': 'S'},
+                                                  entries={'give_part': 'public'}):
+            for st in res.exits():
+                o.count()
+                if 'accepted' in st.flags:
+                    n_acc += 1
+                    o.witness((c.name, 'accept-restamps'))
+                    if st.fields['_waiting_for_part_since'] not in ('N', 'S'):
+                        ln = dv.last_node(res, g.exit, st, lambda n: n.kind in ('stmt', 'call_enter') and n.ast is not None)
+                        o.fail(P, f'{c.name}.give_part', 'self._set_waiting_for_part(False)',
+                               f'{c.name} accepts a part but keeps its old waiting-since stamp: it keeps looking like the device that has been idle longest and is offered every part first',
+                               file=c.mod.path, line=dv.entry_fn(P, c, 'give_part').lineno, path=res.path_lines(g.exit, st))
+        o.require(n_acc >= 1, f'{c.name}.give_part: no accepting path explored')
+    zero_is_a_time(ctx, o5)
     return obs
+
+
+def zero_is_a_time(ctx, o):
+    """a time value (waiting-since, restore / use-start stamps, paused_at) is absent only when it is None: 0 is a legitimate time (the start
+    of the simulation), so testing such a value for truthiness or filtering it with filter(None, ...) treats a device idle since 0 as not idle"""
+    P = ctx.P
+    from ..norm import single_defs, subst
+    times = set()
+    for m, c, fn in inv.functions(P):
+        if c is None:
+            continue
+        N = Normalizer(P, c)
+        for x in ast.walk(fn):
+            if isinstance(x, ast.Assign) and len(x.targets) == 1 and isinstance(x.targets[0], ast.Attribute) and not isinstance(x.value, ast.Constant):
+                try:
+                    if N.norm(x.value).is_({'NOW': 1}):
+                        times.add(x.targets[0].attr)
+                except Exception:
+                    pass
+    times.discard('_now')
+    props = set()
+    for c in P.classes.values():
+        for nm, acc in c.props.items():
+            gfn = acc.get('get')
+            if gfn is not None and any(isinstance(x, ast.Attribute) and x.attr in times for x in ast.walk(gfn)):
+                props.add(nm)
+    names = times | props
+    o.stats['time_valued_attributes'] = sorted(names)
+    o.require(len(times) >= 2, f'only {sorted(times)} recognised as time-valued attributes')
+
+    def is_time(e, defs):
+        e = subst(e, defs)
+        if isinstance(e, ast.Attribute) and e.attr in names:
+            return True
+        if isinstance(e, (ast.ListComp, ast.GeneratorExp)) and isinstance(e.elt, ast.Attribute) and e.elt.attr in names:
+            return True
+        return False
+    for m, c, fn in inv.functions(P):
+        defs = single_defs(fn)
+        where = f'{c.name if c else "<module>"}.{fn.name}'
+        for x in ast.walk(fn):
+            bad = None
+            if isinstance(x, ast.Call) and isinstance(x.func, ast.Name) and x.func.id == 'filter' and len(x.args) == 2 and \
+                    ((isinstance(x.args[0], ast.Constant) and x.args[0].value is None) or (isinstance(x.args[0], ast.Name) and x.args[0].id == 'bool')) and is_time(x.args[1], defs):
+                bad = x
+            tests = []
+            if isinstance(x, (ast.If, ast.While, ast.IfExp, ast.Assert)):
+                tests.append(x.test)
+            if isinstance(x, ast.BoolOp):
+                tests += x.values
+            if isinstance(x, ast.UnaryOp) and isinstance(x.op, ast.Not):
+                tests.append(x.operand)
+            if isinstance(x, ast.comprehension):
+                tests += x.ifs
+            for t in tests:
+                if isinstance(t, (ast.Attribute, ast.Name)) and is_time(t, defs) and not (isinstance(t, ast.Name) and t.id not in defs):
+                    bad = t
+            if bad is not None:
+                o.count()
+                o.fail(P, where, bad, 'a time value is tested for truthiness / filtered with filter(None, ...): the time 0 (idle since the start of the simulation) is treated like "not waiting"; '
+                       'compare with None instead', file=m.path, line=bad.lineno)
+    o.count()
+    o.witness('zero-is-a-time')
 
 
 CLAIM = {
